@@ -10,6 +10,30 @@ VERIF = Path(__file__).resolve().parent.parent
 
 # property -> (technique, level text, level note, design ref)
 CLAIMED = {
+    "C02": (
+        "reaching-definition provenance (resolve -> contain -> use on the same value, aliases followed) + edge-blocking dominance of the containment test + predicate shape + def-use count of percent-decoding",
+        "Static necessary conditions P1-P5 on StaticFileHandler: every content use (read_text/read_bytes/open/listing) operates on a Path that is the result of .resolve() and on every CFG path passed the containment test applied to that same value; the containment predicate is Path.relative_to/is_relative_to against a resolved root and is truthy only when that call succeeded; non-success responses carry no body and no text derived from file content; exactly one urllib.parse.unquote lies on the chain from request.path to the join with the root; the static and upload predicates agree. Races and resolve() on cyclic links are not decided.",
+        "Trusted: CPython ast, engine CFG/reaching definitions, pathlib semantics.",
+        "DESIGN.md section 2, C02",
+    ),
+    "C05": (
+        "abstract evaluation of the rule's decision table over all atom combinations + None/empty fidelity by abstract evaluation + key def-use fidelity + loop/return analysis + path-canonicalisation domain compared between matcher and server",
+        "Static necessary conditions A1-A7: CertificateAuth.process_request evaluated abstractly over require_cert x certificate x allow-list (absent/empty/containing/other) equals the specification (60/61/admit, empty list admits nobody); the TOML allow-list keeps None vs [] on its way to the rule; each rule field comes from the like-named key and the config reaches CertificateAuth through serve()/start_server; the matcher returns the first prefix hit in list order; the value compared with rule prefixes is percent-decoded as often as the served path, with dot segments, repeated and leading slashes collapsed and a slash-less directory matched as the directory; PyOpenSSL (client certificates requested) is selected whenever a rule needs a certificate.",
+        "Trusted: CPython ast, engine, pathlib/posixpath/urllib semantics; a canonicalisation idiom outside the catalogue would be reported (residual risk). TLS delivery of the certificate not decided.",
+        "DESIGN.md section 2, C05",
+    ),
+    "C09": (
+        "edge-blocking reachability on the decision function (deny-before-admit, allow-hit-only, default-only-without-list) + abstract evaluation of the config builder over 36 combinations + handler reachability (fail-stop) + def-use key fidelity",
+        "Static necessary conditions I1-I5: in _is_allowed an unparsable address only reaches `return False`, no admitting return is reachable without exhausting the deny loop, True only through an allow-member hit, exhaustion of the allow loop denies, the default decides only without an allow list; get_access_control_config returns None only when disabled or no entries and default allow; no handler in the constructor skips a failing entry and the constructor runs before create_server outside any try; the middleware refuses with 53 exactly when _is_allowed is false; TOML keys reach the like-named fields. ipaddress arithmetic is trusted.",
+        "Trusted: CPython ast, engine, ipaddress module.",
+        "DESIGN.md section 2, C09",
+    ),
+    "C10": (
+        "store classification with guard dominance (clamped refill / guarded decrement), index provenance (isolation), control dependence of eviction, suspension-point scan, abstract evaluation of the refusal",
+        "Static necessary conditions L1-L6 (the inequality capacity + rate x T itself is arithmetic over real time and is NOT decided): every token store is a capacity-clamped refill or a decrement on the success edge of the availability test, the refill updates the time stamp, success only after a decrement; buckets are indexed by the peer address only with a fresh bucket per key and no shared state; the eviction condition reads the bucket's fill state; no await inside the decision, consume, or between selecting and deleting buckets; only time.monotonic is read; consume() false yields 44 with the configured retry hint.",
+        "Trusted: CPython ast, engine, asyncio's cooperative scheduling. Float rounding not decided.",
+        "DESIGN.md section 2, C10",
+    ),
     "C01": (
         "abstract state machine over the protocol's inlined CFG (activation sequences) + path-sensitive abstract string/int domain at header sites + may-raise ordering in sinks + catch-all funnels",
         "Static necessary conditions W1-W6: over every sequence of data_received/timer/done-callback/connection_lost activations no second header, no write after close, no half response, and no state that is open, unanswered, without pending callback and without armed timer; in every sink nothing that may raise is evaluated between first write and close; every header construction site (sink, timeout literal, built-in middleware rejections) is proven `DD SP meta CRLF` with status 10..69, meta CR/LF-free and <=1024 bytes; a body is written only with a proven 2x status; foreign code is called inside catch-all funnels. Not the run-time ordering of events nor transport behaviour after close.",
